@@ -129,6 +129,14 @@ def build(ctx, incdir=None):
         rowc = [N("%s%s%sj" % (chunk[i], "+" if i % 2 else "-", chunk[i + 1])) for i in range(0, 6, 2)]
         for arr in (("arr", "float", "p0", None, [rowf]), ("arr", "float", "p0", (2, 3), [rowf[:3], rowf[3:]]), ("arr", "complex", "p0", None, [rowc])):
             add("p-array element values", ["tdm"], [arr, ("arr", "int", "p1", None, [[N("1"), N("2")]]), st("Sgate", [V("p0"), N("0.0")], [], [N("1")]), st("MeasureHomodyne", [], [("phi", V("p1"))])])
+    # a p-name declared more than once (the later declaration wins; it is still a p-array and still passed by name)
+    for t1, t2 in itertools.product(ELEMS, repeat=2):
+        a1, a2 = parr("p0", t1, (1, 2)), parr("p0", t2, (1, 3))
+        add("p-array declared twice", ["tdm", "none"], [a1, st("Sgate", [V("p0"), N("0.0")], [], [N("1")]), a2, st("Rgate", [V("p0")], [("k", V("p0"))]), st("MeasureHomodyne", [], [("phi", V("p0"))])])
+    for t, val in (("float", N("0.25")), ("int", N("3"))):
+        add("scalar, then array, under one p-name", ["tdm", "none"], [("decl", t, "p2", val), st("G", [V("p2")], []), parr("p2", "complex", (1, 2)), st("H", [V("p2")], [("k", V("p2"))])])
+        # (array first, then a scalar under the same p-name: the implementation refuses the later use with "p2 must be an
+        #  array"; the property does not say what a p-name that stops being an array denotes - not generated)
     add("no p-arrays", allm, [st("G", [N("1")], [])])
     add("no p-arrays, parameter", allm, [st("G", [P("a")], [])])
     return scripts, fam
